@@ -569,9 +569,18 @@ func (c *c07ctx) ruleR5() {
 	sort.Slice(pkgFns, func(i, j int) bool { return pkgFns[i].Pos() < pkgFns[j].Pos() })
 	for _, fn := range pkgFns {
 		var req ssa.Instruction
+		var reqSel *ssa.Select
+		reqArm := -1
 		Instrs(fn, func(in ssa.Instruction) {
 			if s, ok := in.(*ssa.Send); ok && c.awChan(s.Chan) == c.reqField {
 				req = in
+			}
+			if sel, ok := in.(*ssa.Select); ok {
+				for k, st := range sel.States {
+					if st.Dir == types.SendOnly && c.awChan(st.Chan) == c.reqField {
+						req, reqSel, reqArm = in, sel, k
+					}
+				}
 			}
 			if cc := CallOf(in); cc != nil {
 				if b, ok := cc.Value.(*ssa.Builtin); ok && b.Name() == "close" && c.awChan(cc.Args[0]) == c.reqField {
@@ -587,12 +596,36 @@ func (c *c07ctx) ruleR5() {
 			if u, ok := in.(*ssa.UnOp); ok && u.Op == token.ARROW && c.awChan(u.X) == c.ackField {
 				return C1
 			}
+			if sel, ok := in.(*ssa.Select); ok {
+				for _, st := range sel.States {
+					if st.Dir == types.RecvOnly && c.awChan(st.Chan) == c.ackField {
+						if len(sel.States) == 1 && sel.Blocking {
+							return C1
+						}
+						return C0 | C1 // another arm can win: the acknowledge may not be awaited
+					}
+				}
+			}
 			return 0
 		})
 		good := len(exits) > 0
+		msg := "after signalling " + c.reqField + " the function must wait for exactly one " + c.ackField + " before returning"
 		for _, e := range exits {
-			if e.Kind == ExitReturn && e.Count != C1 {
+			if e.Kind != ExitReturn || e.Count == C1 {
+				continue
+			}
+			// a return in an arm of the request select in which no request was made is fine
+			excused := false
+			if reqSel != nil && e.Count == C0 {
+				for k, arm := range SelectArms(reqSel) {
+					if k != reqArm && arm != nil && arm.Dominates(e.Instr.Block()) {
+						excused = true
+					}
+				}
+			}
+			if !excused {
 				good = false
+				msg = fmt.Sprintf("return at %s is reachable having awaited %s acknowledges after a flush request (want exactly 1): Flush/Close can return before accepted data are in the file, and a late acknowledge desynchronises later calls", p.InstrPos(e.Instr), e.Count)
 			}
 		}
 		// the receive must come after the request
@@ -603,7 +636,33 @@ func (c *c07ctx) ruleR5() {
 				}
 			}
 		})
-		r.Check(good, "C07.R5", FuncName(fn)+" waits for the acknowledge", p.Pos(fn.Pos()), "request, then exactly one acknowledge receive on every path", "after signalling "+c.reqField+" the function must wait for exactly one "+c.ackField+" before returning")
+		r.Check(good, "C07.R5", FuncName(fn)+" waits for the acknowledge", p.Pos(fn.Pos()), "request, then exactly one acknowledge receive on every path", msg)
+	}
+	// (e) request and acknowledge channels are rendezvous (unbuffered) channels
+	for _, fn := range p.LibFuncs() {
+		if fnPkg(fn) != fnPkg(c.loopFn) {
+			continue
+		}
+		Instrs(fn, func(in ssa.Instruction) {
+			st, ok := in.(*ssa.Store)
+			if !ok {
+				return
+			}
+			mk, ok := st.Val.(*ssa.MakeChan)
+			if !ok {
+				return
+			}
+			fa, ok := st.Addr.(*ssa.FieldAddr)
+			if !ok {
+				return
+			}
+			f := derefStruct(fa.X.Type()).Field(fa.Field).Name()
+			if f != c.reqField && f != c.ackField {
+				return
+			}
+			n, isC := constInt(mk.Size)
+			r.Check(isC && n == 0, "C07.R5", "channel "+f+" is unbuffered", p.InstrPos(in), "rendezvous channel", "the flush "+f+" channel must be unbuffered: with a buffer an acknowledge can be left over from an earlier request and satisfy a later Flush/Close before its data are written")
+		})
 	}
 }
 
